@@ -62,6 +62,25 @@ def check_fit2d(ctx, truth, valid, flux, error, info, witness, keyp='fit2d'):
     idx, ok = check_structure(ctx, truth, info, keyp)
     if not ok:
         return None
+    # rows whose model has a non-finite log flux in some band (zero flux: outside C01's quantifier, reachable in C04's)
+    # are not given to the numeric oracle: ranking and identity only
+    finite_rows = np.all(np.isfinite(np.asarray(truth.logm[idx], float)), axis=1)
+    if not np.all(finite_rows):
+        class _Sub(object):
+            pass
+        sub = _Sub()
+        sel = np.where(finite_rows)[0]
+        sub.av, sub.sc, sub.chi2 = np.asarray(info.av)[sel], np.asarray(info.sc)[sel], np.asarray(info.chi2)[sel]
+        sub.model_name = np.asarray(info.model_name)[sel]
+        if len(sel) == 0:
+            return {'cond': 0.0, 'clamped_lo': 0, 'clamped_hi': 0, 'interior': 0, 'limit_violated': 0, 'limit_satisfied': 0, 'rows': 0}
+        return _check_fit2d_rows(ctx, truth, valid, flux, error, sub, witness, keyp, idx[sel])
+    return _check_fit2d_rows(ctx, truth, valid, flux, error, info, witness, keyp, idx)
+
+
+def _check_fit2d_rows(ctx, truth, valid, flux, error, info, witness, keyp, idx):
+    valid = np.asarray(valid)
+    logf, sig, w = O.transform(valid, flux, error)
     fit = w > 0
     wL = np.asarray(w, LD)
     k = truth.k
